@@ -100,8 +100,12 @@ func init() {
 				if hadClip {
 					c.Clip = sh[1]
 				}
-				_, _, detail, _ = c02Check(o, c)
-				col.Violate(Violation{Property: "C02", Kind: kind, Signature: sigOf(c), Detail: detail, Case: c, Stream: "c02", Index: i, Seed: ctx.Seed})
+				_, _, detail, resp = c02Check(o, c)
+				sig := sigOf(c)
+				if s := siteOf(func() { runCanon(c) }, resp, "microSelfIntersect"); s != "" {
+					sig = s
+				}
+				col.Violate(Violation{Property: "C02", Kind: kind, Signature: sig, Detail: detail, Case: c, Stream: "c02", Index: i, Seed: ctx.Seed})
 			}
 		})
 		return col.Finish()
@@ -111,8 +115,12 @@ func init() {
 		if err := json.Unmarshal(raw, &c); err != nil {
 			fatal("replay case: %v", err)
 		}
-		if ok, kind, detail, _ := c02Check(o, c); !ok {
-			return &Violation{Property: "C02", Kind: kind, Signature: sigOf(c), Detail: detail, Case: c}
+		if ok, kind, detail, resp := c02Check(o, c); !ok {
+			sig := sigOf(c)
+			if s := siteOf(func() { runCanon(c) }, resp, "microSelfIntersect"); s != "" {
+				sig = s
+			}
+			return &Violation{Property: "C02", Kind: kind, Signature: sig, Detail: detail, Case: c}
 		}
 		return nil
 	}
